@@ -263,7 +263,7 @@ def check_case(case) -> Result:
                     q['nterm'] = pep['nterm']
                 if k == n - 1:
                     q['cterm'] = pep['cterm']
-                q['static'], q['isotope'] = pep['static'], pep['isotope']
+                q['static'], q['isotope'] = model.m_slice(pep, k, k + 1)['static'], pep['isotope']
                 exp = model.expected(q)
                 obs = model.project(pt.parse(piece))
                 cmp = ('seq', 'internal', 'nterm', 'cterm', 'static', 'isotope')
